@@ -84,7 +84,7 @@ func main() {
 	if *tier == "thorough" {
 		n = 10000
 	}
-	g := &audgen.Gen{R: rng, Modalities: cmd.VerifModalities(), PErrExpr: 0.08, MaxMembers: 3, WithInterp: true, VerdictBias: true}
+	g := &audgen.Gen{R: rng, Modalities: cmd.VerifModalities(), PErrExpr: 0.08, MaxMembers: 3, WithInterp: true, VerdictBias: true, CaseNames: true}
 	var items []string
 	var cases []caseJSON
 	stats := map[string]int{}
